@@ -1,6 +1,7 @@
 package sim
 
 import (
+	"berty.tech/go-orbit-db/stores/operation"
 	"context"
 	"fmt"
 	"regexp"
@@ -564,4 +565,144 @@ func inBubbleSUTGoroutines() []string {
 		}
 	}
 	return out
+}
+
+func init() {
+	Register(&Scenario{Prop: "C18", Name: "reopen-while-closing", Run: scenC18Reopen, Weight: 1,
+		Rule: "instance P with one database and a feeder Q; replication into P is stopped with a fetched batch parked before being joined (load-end hook), i.e. the store's main loop is busy; then Close of the store (must return within 30 virtual s), Open of the same address on the same instance while the old main loop is still parked, release of the old loop, a write on the reopened store (must succeed), then Close of the instance; oracle: 15 virtual seconds later no goroutine created in go-orbit-db packages is left in the bubble (the reopened store was closed with its instance), and a fresh instance on the same directory recovers the acknowledged write; non-trivial = the old main loop was parked when the store was reopened"})
+}
+
+func scenC18Reopen(k *K) {
+	pn := k.W.AddNode()
+	Q, err := k.StartPeer(k.W.AddNode())
+	if err != nil {
+		panic(abortPanic{err.Error()})
+	}
+	P, err := k.StartPeer(pn)
+	if err != nil {
+		panic(abortPanic{err.Error()})
+	}
+	ids := []string{P.DB.Identity().ID, Q.DB.Identity().ID}
+	typ := []string{"keyvalue", "eventlog", "docstore"}[k.C.Intn(3)]
+	op := k.Do(0, "create", 50, func() (interface{}, error) {
+		ctx, cancel := OpCtx(time.Minute)
+		defer cancel()
+		return P.DB.Create(ctx, "db", typ, &orbitdb.CreateDBOptions{AccessController: WriteACL(ids...)})
+	})
+	if !op.Done || op.Err != nil {
+		panic(abortPanic{fmt.Sprint(op.Err)})
+	}
+	p1 := op.Val.(iface.Store)
+	addr := p1.Address().String()
+	oq := k.Do(1, "open", 400, func() (interface{}, error) {
+		ctx, cancel := OpCtx(10 * time.Minute)
+		defer cancel()
+		return Q.DB.Open(ctx, addr, nil)
+	})
+	if !oq.Done || oq.Err != nil {
+		panic(abortPanic{fmt.Sprint(oq.Err)})
+	}
+	q := oq.Val.(iface.Store)
+	k.Settle(30*time.Second, 1000, nil)
+	// park P's main loop with a fetched batch in hand
+	k.InstallHooks(func(pt string, owner interface{}) bool { return pt == "store.load-end" && OwnerStoreID(owner) == addr })
+	for j, m := 0, k.C.Range(1, 3); j < m; j++ {
+		val := fmt.Sprintf("q%d", j)
+		k.Do(1, "write "+val, 20, func() (interface{}, error) {
+			ctx, cancel := OpCtx(time.Minute)
+			defer cancel()
+			return c09Write(ctx, q, val)
+		})
+	}
+	parked := false
+	for j := 0; j < 300 && !parked; j++ {
+		k.Step()
+		parked = len(k.Parks()) > 0
+	}
+	cop := k.Go(0, "close-store", func() (interface{}, error) { return nil, p1.Close() })
+	k.Wait()
+	for j := 0; j < 60 && !k.IsDone(cop); j++ {
+		k.Step()
+	}
+	if !k.IsDone(cop) {
+		k.Tick(35 * time.Second)
+	}
+	if !k.IsDone(cop) {
+		k.Failf("C18/close-hang/close-store", "Close of a store whose main loop is busy (a fetched batch is being handled) did not return within 30 virtual seconds")
+	}
+	stillParked := len(k.Parks()) > 0
+	rop := k.Do(0, "reopen", 300, func() (interface{}, error) {
+		ctx, cancel := OpCtx(5 * time.Minute)
+		defer cancel()
+		return P.DB.Open(ctx, addr, nil)
+	})
+	if !rop.Done || rop.Err != nil {
+		k.Failf("C18/reopen-failed/close-store", "reopening %s on the same instance right after Close failed: done=%v err=%v", short(addr), rop.Done, rop.Err)
+	}
+	p2 := rop.Val.(iface.Store)
+	// the old main loop goes on now
+	UninstallHooks()
+	k.ReleaseAllParks()
+	k.Settle(30*time.Second, 1000, nil)
+	wop := k.Do(0, "write-on-reopened", 30, func() (interface{}, error) {
+		ctx, cancel := OpCtx(time.Minute)
+		defer cancel()
+		return c09Write(ctx, p2, "after-reopen")
+	})
+	if !wop.Done || wop.Err != nil {
+		k.Failf("C18/reopened-unusable", "a write on the store reopened while the closed one's main loop was still busy failed: done=%v err=%v", wop.Done, wop.Err)
+	}
+	acked := wop.Val.(operation.Operation).GetEntry().GetHash().String()
+	k.Settle(30*time.Second, 1000, nil)
+	// the feeder leaves first (what it does in reaction to P's closing is its own business)
+	qop := k.StopPeer(Q)
+	k.Wait()
+	for j := 0; j < 60 && !k.IsDone(qop); j++ {
+		k.Wait()
+		kernelSleep(time.Second)
+	}
+	k.W.Detach(Q.Inc)
+	iop := k.StopPeer(P)
+	k.Wait()
+	for j := 0; j < 120 && !k.IsDone(iop); j++ {
+		k.Step()
+	}
+	if !k.IsDone(iop) {
+		k.Tick(35 * time.Second)
+	}
+	if !k.IsDone(iop) {
+		k.Failf("C18/close-hang/close-instance", "closing the instance after a store had been reopened on it did not return within 30 virtual seconds")
+	}
+	k.Settle(20*time.Second, 400, nil)
+	k.Tick(15 * time.Second)
+	k.Wait()
+	if left := inBubbleSUTGoroutines(); len(left) > 0 {
+		k.Failf("C18/goroutine-leak/close-instance-nonzero", "15 virtual seconds after closing the instance (a store had been closed and reopened on it while the closed one's main loop was still busy: %v) %d goroutine(s) created in go-orbit-db packages are still alive:\n%s", stillParked, len(left), strings.Join(left[:min(3, len(left))], "\n\n"))
+	}
+	// the acknowledged write is on disk
+	k.W.Detach(P.Inc)
+	np, err := k.StartPeer(P.Node)
+	if err != nil {
+		k.Failf("C18/reopen-instance-failed", "NewOrbitDB on the closed instance's directory failed: %v", err)
+	}
+	np.Inc.SetOffline(true)
+	fop := k.Do(0, "reopen-fresh", 200, func() (interface{}, error) {
+		ctx, cancel := OpCtx(2 * time.Minute)
+		defer cancel()
+		return np.DB.Open(ctx, addr, nil)
+	})
+	if !fop.Done || fop.Err != nil {
+		k.Failf("C18/reopen-failed/close-instance", "done=%v err=%v", fop.Done, fop.Err)
+	}
+	fs := fop.Val.(iface.Store)
+	k.Do(0, "load", 200, func() (interface{}, error) {
+		ctx, cancel := OpCtx(2 * time.Minute)
+		defer cancel()
+		return nil, fs.Load(ctx, -1)
+	})
+	if !LogHashSet(fs)[acked] {
+		k.Failf("C18/acked-after-reopen-lost", "the write acknowledged by the reopened store is not on disk after the instance was closed: %v", LogNames(fs))
+	}
+	k.Notes["nontrivial"] = parked && stillParked
+	k.StopPeer(np)
 }
